@@ -42,11 +42,8 @@ def build(chain, tail):
 
 
 def parse_repr(text):
-    from vyxal.lexer import tokenise
-    from vyxal.parse import parse
-
     try:
-        return repr(parse(tokenise(text)))
+        return repr(sandbox.parse(sandbox.tokenise(text)))
     except Exception as e:  # noqa
         return "raises %s: %s" % (type(e).__name__, str(e)[:60])
 
